@@ -31,6 +31,61 @@ theorem MSet.remove_seq0 {s : MSet α} (h : WF0 s) (vs : List α) :
   refine ⟨s', h₁, sublist_ext h.nodup hsub FSet.eraseAll_sublist (fun x => ?_)⟩
   rw [hm, FSet.mem_eraseAll]
 
+/-- `yields` are what ranging over `All()` of each operand gave: a permutation of its members, and
+exactly its stored sequence unless the operand is an unordered set -/
+inductive YieldsOf : List (List α) → List (MSet α) → Prop
+  | nil : YieldsOf [] []
+  | cons {y : List α} {u : MSet α} {ys : List (List α)} {us : List (MSet α)} :
+      y.Perm u.members → (u.impl.isUnordered = false → y = u.members) → YieldsOf ys us → YieldsOf (y :: ys) (u :: us)
+
+/-- `for m := range set.All() { t.Add(m) }` on `set`/`stable`: the values not yet present are appended
+in the order they are yielded -/
+theorem addEach_seq0 {t : MSet α} (h : WF0 t) (hl : t.impl.isSorted = false) (ms : List α) (hnd : ms.Nodup) :
+    ∃ t', addEach t ms = .ok t' ∧ WF0 t' ∧ t'.impl = t.impl ∧ t'.members = FSet.union t.members ms := by
+  induction ms generalizing t with
+  | nil => exact ⟨t, rfl, h, rfl, by simp [FSet.union]⟩
+  | cons m ms ih =>
+    have hnd' := List.nodup_cons.1 hnd
+    obtain ⟨t₁, h₁, hw₁, hi₁, _, hsame, _, happ⟩ := MSet.add1_spec0 h m
+    obtain ⟨t₂, h₂, hw₂, hi₂, hm₂⟩ := ih hw₁ (by rw [hi₁]; exact hl) hnd'.2
+    refine ⟨t₂, by simp [addEach, MSet.add_singleton, h₁, h₂], hw₂, hi₂.trans hi₁, ?_⟩
+    rw [hm₂]
+    by_cases hm : m ∈ t.members
+    · rw [hsame hm]
+      simp [FSet.union, List.filter_cons, hm]
+    · rw [happ hm hl]
+      simp only [FSet.union, List.filter_cons, hm, not_false_eq_true, decide_true, ↓reduceIte,
+        List.append_assoc, List.cons_append, List.nil_append]
+      congr 2
+      apply List.filter_congr
+      intro x hx
+      have : x ≠ m := fun h' => hnd'.1 (h' ▸ hx)
+      simp [this]
+
+theorem unionLoop_seq0 {sh : Shuffle σ} (hsh : ShLaw sh) {t : MSet α} (h : WF0 t) (hl : t.impl.isSorted = false)
+    (sets : List (MSet α)) (hsets : ∀ u ∈ sets, WF0 u) (g : σ) :
+    ∃ t' g' yields, unionLoop sh t sets g = .ok (t', g') ∧ YieldsOf yields sets ∧
+      t'.members = FSet.unionAll t.members yields := by
+  induction sets generalizing t g with
+  | nil => exact ⟨t, g, [], rfl, .nil, rfl⟩
+  | cons u sets ih =>
+    obtain ⟨ms, g₁, ha, hp, hord⟩ := MSet.all_spec hsh u g
+    have hnd : ms.Nodup := hp.symm.nodup (hsets u (List.mem_cons_self ..)).nodup
+    obtain ⟨t₁, h₁, hw₁, hi₁, hm₁⟩ := addEach_seq0 h hl ms hnd
+    obtain ⟨t₂, g₂, ys, h₂, hy₂, hm₂⟩ := ih hw₁ (by rw [hi₁]; exact hl)
+      (fun w hw => hsets w (List.mem_cons_of_mem _ hw)) g₁
+    refine ⟨t₂, g₂, ms :: ys, by simp [unionLoop, ha, h₁, h₂], .cons hp (fun hu => (hord hu).1) hy₂, ?_⟩
+    rw [hm₂, hm₁]
+    rfl
+
+/-- `Union` on a `set`/`stable` receiver: the receiver's sequence, then, operand by operand, the values
+not yet present in the order the operand's `All()` yields them -/
+theorem MSet.union_seq0 {sh : Shuffle σ} (hsh : ShLaw sh) {s : MSet α} (h : WF0 s) (hl : s.impl.isSorted = false)
+    (sets : List (MSet α)) (hsets : ∀ u ∈ sets, WF0 u) (g : σ) :
+    ∃ t g' yields, s.union sh sets g = .ok (t, g') ∧ YieldsOf yields sets ∧
+      t.members = FSet.unionAll s.members yields :=
+  unionLoop_seq0 hsh (t := s.clone) h hl sets hsets g
+
 omit [DecidableEq α] in
 theorem exists_mem_map_members (sets : List (MSet α)) (p : List α → Prop) :
     (∃ b ∈ sets.map (·.members), p b) ↔ ∃ u ∈ sets, p u.members := by
